@@ -160,7 +160,7 @@ def make(kind, member, seed=0, a=None, b=None):
         m = base_mesh(kind, n, aa, bb)
     else:
         m = base_mesh(kind, 3, a, b)
-    if member in ("distorted", "curved", "renum", "extra"):
+    if member in ("distorted", "curved", "renum", "extra", "mm", "km"):
         # displace every interior vertex (those not on the bounding box) by <= 0.15 h
         pts = m.points.copy()
         lo, hi = pts.min(0), pts.max(0)
@@ -182,6 +182,10 @@ def make(kind, member, seed=0, a=None, b=None):
         m = fem.Mesh(pts, m.cells, m.cell_type)
     if member == "renum":
         m = renumber(m, seed)
+    if member in ("mm", "km"):
+        # the distorted block in other length units (a millimetre-sized body in metres and the reverse): absolute
+        # tolerances hidden in the library show here
+        m = fem.Mesh(m.points * (1e-3 if member == "mm" else 1e3), m.cells, m.cell_type)
     if member == "extra":
         m = fem.Mesh(np.vstack([m.points, m.points.max(0) + 0.5]), m.cells, m.cell_type)
     return m
